@@ -192,6 +192,48 @@ fn check_cut(ctx: &mut Ctx) {
     }
 }
 
+/// value *sequences* (seed round 10): every word of length <= L over {null, below, on an edge, inside, above} - the
+/// label of an item is a function of that item alone, whatever came before it (repeats, misses, nulls), and every
+/// item after an Err item is still delivered
+fn check_cut_sequences(max_len: usize, ctx: &mut Ctx) {
+    let fam = "cut-sequences";
+    let alpha: Vec<X> = vec![None, Some(-3.0), Some(0.0), Some(1.0), Some(7.0)];
+    for w in all_words_upto(alpha.len(), max_len) {
+        if w.is_empty() {
+            continue;
+        }
+        let vals = decode(&w, &alpha);
+        ctx.states += 1;
+        ctx.fam(fam).states += 1;
+        ctx.nontrivial(fam, hash_bytes(&w));
+        for edges in [vec![0.0, 2.0], vec![-1.0, 0.0, 2.0, 5.0], vec![0.0]] {
+            for right in [true, false] {
+                for add_bounds in [true, false] {
+                    let n_labels = if add_bounds { edges.len() + 1 } else { edges.len() - 1 };
+                    ctx.transitions += vals.len() as u64;
+                    let want = cut_model(&vals, &edges, n_labels, right, add_bounds);
+                    for ty in ["f64", "Option<i32>"] {
+                        let got = if ty == "f64" { run_cut_f64(&vals, &edges, n_labels, right, add_bounds) } else { run_cut_i32(&vals, &edges, n_labels, right, add_bounds) };
+                        ctx.eval(fam, hash_bytes(format!("{got:?}").as_bytes()));
+                        if matches!(&got, Outcome::Ok(g) if *g == want) {
+                            ctx.traces += 1;
+                            continue;
+                        }
+                        ctx.violation(Violation {
+                            entry: "vcut (sequence)".into(),
+                            finding: None,
+                            size: vals.len() * 10 + edges.len(),
+                            case: json!({"family": fam, "elem": ty, "word": w, "values": json_word(&vals), "edges": edges, "labels": n_labels, "right": right, "add_bounds": add_bounds}),
+                            expected: format!("{want:?}"),
+                            got: format!("{got:?}"),
+                        });
+                    }
+                }
+            }
+        }
+    }
+}
+
 /// a bin's own label may be a null (NaN / None / "None"): a value in that bin gets that label - Ok(null) - not an error
 fn check_cut_null_labels(ctx: &mut Ctx) {
     let fam = "cut-null-labels";
@@ -527,6 +569,8 @@ fn main() {
             check_cut(&mut ctx);
         } else if stored["case"]["family"] == "unique-durations" {
             check_unique_durations(run.pick(4, 5), &mut ctx);
+        } else if stored["case"]["family"] == "cut-sequences" {
+            check_cut_sequences(run.pick(4, 6), &mut ctx);
         } else if stored["case"]["family"] == "cut-null-labels" {
             check_cut_null_labels(&mut ctx);
         } else if ["cut-many-edges", "unique-long-runs", "translation-bigint"].contains(&stored["case"]["family"].as_str().unwrap_or("")) {
@@ -538,11 +582,12 @@ fn main() {
     }
     check_cut(&mut ctx);
     check_cut_null_labels(&mut ctx);
+    check_cut_sequences(run.pick(4, 6), &mut ctx);
     check_unique(max_len, &mut ctx);
     check_unique_durations(run.pick(4, 5), &mut ctx);
     check_large(!run.quick(), &mut ctx);
     let meta = Meta {
-        rule: "cut: the whole value alphabet {null, MIN, -3, -1, 0, 1, 2, 5, 7, MAX} (f64 and Option<i32>) x every ascending subset of the edge pool {-1,0,2,5,7} x label counts 0..=6 x right x add_bounds; oracle = the unique interval containing the value (outer edges at -inf/+inf with open bounds), Err for no interval, call-level Err for a label-count mismatch, never a panic. unique: every non-decreasing and non-increasing word over {0,1,2,3} (all run-length compositions) with null blocks of 0..2 at head and tail, Keep::First / Keep::Last / vsorted_unique; oracle = first / last index of each maximal run. Beyond the small scope: 17..257 consecutive edges with values on and between every edge; 1..3 runs with lengths from {1,2,255,256,257}; the translation relation for i64 values and edges around +-2^60. Non-trivial = distinct parameter points / words. Also labels that are nulls themselves at every position (cut-null-labels: f64, Option<i32>, String labels; DESIGN 5.15).".into(),
+        rule: "cut: the whole value alphabet {null, MIN, -3, -1, 0, 1, 2, 5, 7, MAX} (f64 and Option<i32>) x every ascending subset of the edge pool {-1,0,2,5,7} x label counts 0..=6 x right x add_bounds; oracle = the unique interval containing the value (outer edges at -inf/+inf with open bounds), Err for no interval, call-level Err for a label-count mismatch, never a panic. unique: every non-decreasing and non-increasing word over {0,1,2,3} (all run-length compositions) with null blocks of 0..2 at head and tail, Keep::First / Keep::Last / vsorted_unique; oracle = first / last index of each maximal run. Beyond the small scope: 17..257 consecutive edges with values on and between every edge; 1..3 runs with lengths from {1,2,255,256,257}; the translation relation for i64 values and edges around +-2^60. Non-trivial = distinct parameter points / words. Also labels that are nulls themselves at every position (cut-null-labels: f64, Option<i32>, String labels; DESIGN 5.15). Round 9 (DESIGN 5.18): unique-durations - sorted TimeDelta words, including durations beyond the i64 nanosecond range, through vsorted_unique / vsorted_unique_idx against the run model.".into(),
         bounds: json!({"cut": {"edge_pool": [-1, 0, 2, 5, 7], "labels": "0..=6"}, "unique": {"alphabet": [0, 1, 2, 3], "L": max_len, "null_block": "0..=2 head x 0..=2 tail"}}),
         assumptions: vec!["finite values (the type's MIN and MAX included)".into()],
         exhaustive: true,
